@@ -165,6 +165,8 @@ func normalize(v reflect.Value) {
 	}
 }
 
+var dirtyDest = map[reflect.Type][]byte{}
+
 func rtCase(c *EnumCtx, cd codec.Codec, class string, val interface{}) {
 	if !c.Mine() {
 		return
@@ -195,6 +197,25 @@ func rtCase(c *EnumCtx, cd codec.Codec, class string, val interface{}) {
 	normalize(dst)
 	if !reflect.DeepEqual(a.Elem().Interface(), dst.Elem().Interface()) {
 		c.Fail(fmt.Sprintf("%s: decoded value differs from the encoded one (%s)", cd.Name(), class), name, fmt.Sprintf("got %+v via %q", trimVal(dst.Elem().Interface()), trimB(enc)))
+		return
+	}
+	// a destination that already holds another (longer) value must be overwritten, not merged:
+	// checked for the codecs whose decoders define that (plain, protobuf, thrift scalars/bytes/strings)
+	if n := cd.Name(); n == "plain" || n == "protobuf" {
+		if prev, ok := dirtyDest[rv.Elem().Type()]; ok {
+			d2 := reflect.New(rv.Elem().Type())
+			if err := cd.Unmarshal(prev, d2.Interface()); err == nil {
+				if err := cd.Unmarshal(enc, d2.Interface()); err == nil {
+					normalize(d2)
+					if !reflect.DeepEqual(a.Elem().Interface(), d2.Elem().Interface()) {
+						c.Fail(fmt.Sprintf("%s: decoding into a destination that held another value does not yield the encoded value (%s)", cd.Name(), class), name, fmt.Sprintf("got %+v via %q after %q", trimVal(d2.Elem().Interface()), trimB(enc), trimB(prev)))
+					}
+				}
+			}
+		}
+		if prev, ok := dirtyDest[rv.Elem().Type()]; !ok || len(enc) > len(prev) {
+			dirtyDest[rv.Elem().Type()] = enc // the longest encoding seen for this type
+		}
 	}
 }
 
